@@ -28,3 +28,101 @@ class StepClassifier:
 
 def is_integer_state(x):
     return all(v >= 0 and float(v).is_integer() for v in x)
+
+
+# ---------------------------------------------------------------------------------------------
+# pooled Ville accumulators (child side: accumulate; parent side: pool in case order and judge)
+import math
+from vf import stats as _stats
+
+THETAS = _stats.theta_grid()
+
+
+def new_acc():
+    return {"inc": [0.0] * len(THETAS), "max": 0.0, "n": 0, "sy": 0.0, "sm": 0.0}
+
+
+def acc_add(acc, y, psi_fn, mean):
+    acc["n"] += 1
+    acc["sy"] += y
+    acc["sm"] += mean
+    mx = acc["max"]
+    inc = acc["inc"]
+    for i, th in enumerate(THETAS):
+        inc[i] += th * y - psi_fn(th)
+        if inc[i] > mx:
+            mx = inc[i]
+    acc["max"] = mx
+
+
+def tauleap_accumulate(desc, chemostats, X, dt, accs, funcs=None, prefix="tauleap-w:"):
+    """Feed the increments of a few integer functionals of a tau-leap trajectory X (list of states, on_iteration)
+    into Ville accumulators.  Under the property, w.dx has log-MGF dt * sum_c a_c(x) (exp(theta w.delta_c) - 1) with
+    chemostat-masked deltas.  Steps with a negative pre-state entry are skipped.  Returns (used, skipped)."""
+    chs = ref.channels(desc, chemostats)
+    S = len(desc["species"])
+    n = len(X[0]) // S
+    if funcs is None:
+        funcs = [("total-species-%d" % s_, {s_ * n + i: 1 for i in range(n)}) for s_ in range(min(S, 3))]
+    groups = []
+    for name, w in funcs:
+        g = {}
+        for k, ch in enumerate(chs):
+            dv = sum(w.get(i, 0) * dlt for i, dlt in ch[5].items())
+            if dv:
+                g.setdefault(dv, []).append(k)
+        groups.append((name, w, g))
+    used = skipped = 0
+    for j in range(len(X) - 1):
+        x0 = X[j]
+        if min(x0) < 0:
+            skipped += 1
+            continue
+        used += 1
+        props = [ref.propensity(ch, x0) for ch in chs]
+        for name, w, g in groups:
+            y = sum(wv * (X[j + 1][i] - x0[i]) for i, wv in w.items())
+            A = [(dv, sum(props[k] for k in ks)) for dv, ks in g.items()]
+            if not any(a_ > 0 for _, a_ in A):
+                continue
+            mean = dt * sum(dv * a_ for dv, a_ in A)
+            acc_add(accs.setdefault(prefix + name, new_acc()), y, lambda th, A=A: dt * sum(a_ * math.expm1(th * dv) for dv, a_ in A), mean)
+    return used, skipped
+
+
+class Pool:
+    """parent side: pools child accumulators in case order, looks at case boundaries and at within-case maxima"""
+
+    def __init__(self):
+        self.P = {}
+        self.looks = 0
+        self.thr = math.log(len(THETAS) / _stats.ALPHA)
+
+    def add(self, case, accs):
+        for name, a in accs.items():
+            P = self.P.setdefault(name, {"inc": [0.0] * len(THETAS), "max": 0.0, "n": 0, "sy": 0.0, "sm": 0.0, "alarm_at": None})
+            self.looks += 1
+            if a["max"] > self.thr and P["alarm_at"] is None:
+                P["alarm_at"] = {"case": case, "within_case_logL": a["max"]}
+            for i in range(len(THETAS)):
+                P["inc"][i] += a["inc"][i]
+            P["n"] += a["n"]
+            P["sy"] += a["sy"]
+            P["sm"] += a["sm"]
+            m = max(P["inc"])
+            if m > P["max"]:
+                P["max"] = m
+                if m > self.thr and P["alarm_at"] is None:
+                    P["alarm_at"] = {"case": case, "pooled_logL": m}
+
+    def judge(self, run, what="rate statistic '%s' departs from the master equation (Ville test)"):
+        summ = []
+        for name, P in sorted(self.P.items()):
+            summ.append({"monitor": name, "n": P["n"], "observed_sum": round(P["sy"], 3), "expected_sum": round(P["sm"], 3),
+                         "max_logL": round(P["max"], 3), "threshold": round(self.thr, 3)})
+            run.count("ville:" + name, P["n"])
+            if P["alarm_at"] is not None:
+                run.violation(what % name, {"monitor": name, "n": P["n"], "observed_sum": P["sy"], "expected_sum": P["sm"],
+                                            "max_logL": P["max"], "threshold": self.thr, **P["alarm_at"]},
+                              mech={"what": "ville", "monitor": name})
+        return summ
